@@ -21,7 +21,8 @@ PROP = {'lean_props': ['Comrak.Props.C10'],
  'assumptions': ['plugins and URL rewriters are outside the model',
                  "that every parsed tree satisfies balShapeT is checked on every parsed tree of the run (it is C04's subject)"]}
 
-TEXT = {'text': "Proof. html.rs's format_node_default is modelled completely at token level (41 node kinds, all options, footnote and table bookkeeping). "
+TEXT = {'text_added': 'Documents whose rendering exceeds an I/O buffer (9..21 kB concatenations) are included, and markdown_to_html must return the bytes of parse + format_html.',
+ 'text': "Proof. html.rs's format_node_default is modelled completely at token level (41 node kinds, all options, footnote and table bookkeeping). "
          'Lean proves, for every option vector and every tree of any depth/width whose rows sit under tables with a unique leading header row and '
          'whose footnote definitions sit under the document or another definition (balShapeT, implied by Shape), that the emitted tag events are '
          'balanced and nothing is left open (html_balanced), via per-node pairing lemmas for all kinds. The model is tied to the code by '
